@@ -68,7 +68,13 @@ def _ref_act(name):
 def gen_softmax(draw):
     shp = draw(gen.shapes(1, 4, 60))
     nd = len(shp)
-    return {"xs": [X(shp, draw(gen.grid(shp)))],
+    v = draw(gen.grid(shp))
+    if draw(st.integers(0, 3)) == 0:
+        # slices at very different levels (a per-element offset that is constant along no particular dim)
+        n = len(v)
+        lv = [draw(st.sampled_from([0.0, 0.0, 200.0, -200.0, 1000.0, -1000.0])) for _ in range(min(n, 6))]
+        v = [x + lv[i % len(lv)] for i, x in enumerate(v)]
+    return {"xs": [X(shp, v)],
             "args": {"dim": draw(st.integers(-nd, nd - 1)), "form": draw(st.sampled_from(["fn", "module"]))}}
 
 
@@ -446,6 +452,8 @@ def _fold_tags(a, s):
 # =============================================================================================
 # batch norm
 # =============================================================================================
+LAST = {}     # the running-statistic tensors created by the most recent batch-norm call (for C11)
+
 @st.composite
 def gen_batch_norm(draw):
     form = draw(st.sampled_from(["fn", "fn", "module"]))
@@ -485,6 +493,7 @@ def apply_batch_norm(ts, args):
     dt = x.dtype
     rm = Tensor(np.array(args["rm"], dtype=dt)) if args["stats"] else None
     rv = Tensor(np.array(args["rv"], dtype=dt)) if args["stats"] else None
+    LAST["bn_buffers"] = (rm, rv)
     if args["form"] == "fn":
         return F.batch_norm(x, w, b, rm, rv, args["training"], args["momentum"], args["eps"])
     cls = nn.BatchNorm2d if x.ndim == 4 else nn.BatchNorm1d
